@@ -84,6 +84,10 @@ func runBind(c BindCase) (*bindStats, error) {
 		st, err = runBindClientUDP(c)
 	case "server-mcast":
 		st, err = runBindServerMulticast(c)
+	case "client-source":
+		st, err = runBindClientSource(c)
+	case "control-frames":
+		st, err = runBindFrames(c)
 	default:
 		st, err = runBindControl(c)
 	}
